@@ -891,10 +891,12 @@ func openHost(in *Interp) {
 	})
 	// hostraise(): the host function fails with RaiseError; hostpanic(): it panics with a Go string;
 	// hostnilpanic(): it hits a Go run-time panic.  The error value is a string whose text is not fixed.
-	for _, n := range []string{"hostraise", "hostpanic", "hostnilpanic"} {
+	// hoststackoverflow(), hostregoverflow(): the host function runs into the call-stack / value-stack limit
+	for _, n := range []string{"hostraise", "hostpanic", "hostnilpanic", "hoststackoverflow", "hostregoverflow"} {
+		noRoom := strings.HasSuffix(n, "overflow")
 		in.reg(G, n, func(in *Interp, a []Value) []Value {
 			in.Stat.Faults++
-			in.raise(&OStr{Kind: "err"})
+			in.raise(&OStr{Kind: "err", NoRoom: noRoom})
 			return nil
 		})
 	}
